@@ -19,7 +19,7 @@
    resolver runs) or v.k = "dontcare" (scalar-to-scalar leniency the specification leaves to the implementation:
    reported, not judged - DESIGN Appendix B.9).
    Schema of the harness:  enum E { A  B }  with internal values A -> 1 ("e1"), B -> "b" ("eb")
-                           input In { x: Int = 3   y: Int!   e: E = A   z: In   l: [In!] }  python names px py pe pz pl *)
+                           input In { x: Int = 3   y: Int!   e: E = A   z: In   l: [In!]   d: Int = null }  python names px py pe pz pl pd *)
 EXTENDS Naturals, Sequences, FiniteSets, TLC, Json, SequencesExt
 CONSTANT Depth          \* wrapper depth of argument types (1, 2 or 3)
 \* ---- type language --------------------------------------------------------
@@ -34,7 +34,8 @@ InFields == << [name |-> "x", py |-> "px", type |-> Named("Int"), hasDef |-> TRU
                [name |-> "y", py |-> "py", type |-> NN(Named("Int")), hasDef |-> FALSE, def |-> [k |-> "null"]],
                [name |-> "e", py |-> "pe", type |-> Named("E"), hasDef |-> TRUE,  def |-> [k |-> "enumv", v |-> "e1"]],
                [name |-> "z", py |-> "pz", type |-> Named("In"), hasDef |-> FALSE, def |-> [k |-> "null"]],
-               [name |-> "l", py |-> "pl", type |-> ListOf(NN(Named("In"))), hasDef |-> FALSE, def |-> [k |-> "null"]] >>
+               [name |-> "l", py |-> "pl", type |-> ListOf(NN(Named("In"))), hasDef |-> FALSE, def |-> [k |-> "null"]],
+               [name |-> "d", py |-> "pd", type |-> Named("Int"), hasDef |-> TRUE, def |-> [k |-> "null"]] >>      \* an explicit "= null" default is a default
 \* ---- supplied values (JSON / literal shaped) --------------------------------
 IntAtoms == {"MININT-1", "MININT", "0", "MAXINT", "MAXINT+1"}
 InRange(a) == a \in {"MININT", "0", "MAXINT"}
